@@ -69,6 +69,7 @@ fn main() {
             std::process::exit(code);
         }
         "kdemo" => client::demo(),
+        "selftest" => std::process::exit(selftest(&args[1..])),
         _ => usage(),
     }
 }
@@ -112,4 +113,58 @@ fn check(prop: &str, tier: &str) -> i32 {
         }
         _ => harness_error(&format!("no check for property {prop}")),
     }
+}
+
+/// Determinism proof: for every engine run the same seeds in separate processes at worker counts
+/// 1, 4 and 16 (and twice at 16) and diff the per-run trace fingerprints. Any mismatch = exit 2.
+fn selftest(args: &[String]) -> i32 {
+    let exe = std::env::current_exe().unwrap();
+    let dir = simcore::verif_dir().join("work").join("selftest");
+    let _ = std::fs::create_dir_all(&dir);
+    let props: Vec<String> = if args.is_empty() { ["C19", "C12", "C13", "C14", "C15", "C16", "C17", "C18"].iter().map(|s| s.to_string()).collect() } else { args.to_vec() };
+    let seeds: [u64; 3] = [simcore::DEFAULT_SEED, 1, 987_654_321];
+    let mut total = 0u64;
+    for p in &props {
+        let runs: u64 = match p.as_str() {
+            "C19" => 20_000,
+            "C12" | "C13" | "C14" | "C15" => 3_000,
+            _ => 240,
+        };
+        for seed in seeds {
+            let mut files = vec![];
+            for (i, threads) in [1usize, 4, 16, 16].iter().enumerate() {
+                let f = dir.join(format!("{p}-{seed}-{i}.hashes"));
+                let st = std::process::Command::new(&exe)
+                    .args(["check", p])
+                    .env("VERIF_SEED", seed.to_string())
+                    .env("VERIF_RUNS", runs.to_string())
+                    .env("VERIF_THREADS", threads.to_string())
+                    .env("VERIF_HASH_DUMP", &f)
+                    .env("VERIF_OUT_DIR", dir.join("scratch"))
+                    .stdout(std::process::Stdio::null())
+                    .status()
+                    .unwrap_or_else(|e| harness_error(&format!("spawn: {e}")));
+                if st.code() == Some(2) {
+                    harness_error(&format!("selftest: check {p} seed {seed} threads {threads} reported a harness error"));
+                }
+                files.push(f);
+            }
+            let base = std::fs::read_to_string(&files[0]).unwrap_or_default();
+            if base.lines().count() as u64 != runs {
+                harness_error(&format!("selftest: {p} seed {seed}: expected {runs} runs, got {}", base.lines().count()));
+            }
+            for f in &files[1..] {
+                let other = std::fs::read_to_string(f).unwrap_or_default();
+                if other != base {
+                    let diff = base.lines().zip(other.lines()).find(|(a, b)| a != b);
+                    harness_error(&format!("selftest: {p} seed {seed}: trace fingerprints differ between {} and {}: {:?}", files[0].display(), f.display(), diff));
+                }
+            }
+            total += runs;
+            println!("selftest: {p} seed {seed}: {runs} runs identical at 1, 4, 16 and 16 workers in separate processes");
+        }
+    }
+    let _ = std::fs::remove_dir_all(&dir);
+    println!("selftest ok: {total} seeds x 4 executions, no divergence");
+    0
 }
